@@ -506,7 +506,14 @@ def reuse_cls(job, cls, method):
                 obj(x2)
                 again = obj(x1)
                 fresh = mk(f)(x1)
-            return first, again, fresh
+                # the caller reuses ONE array object and updates it in place between the calls
+                obj2 = mk(f)
+                xa = np.array(x2, dtype=float)
+                obj2(xa)
+                xa[:] = np.asarray(x1, dtype=float)
+                inplace = obj2(xa)
+                return first, again, fresh, inplace
+            return first, again, fresh, None
     ex = sn.Explorer(harness, assumptions=box, max_paths=400, timeout_ms=20000)
     paths = list(ex.paths())
     job.absorb_explorer(ex)
@@ -516,9 +523,13 @@ def reuse_cls(job, cls, method):
                 raise p.exc
             job.violation('raises', dict(key='C09:reuse:%s:raises:%s' % (cls, type(p.exc).__name__), kind='reuse_cls', exc=repr(p.exc)[:300]))
             continue
-        first, again, fresh = p.result
-        for label, (va, ia), (vb, ib) in (('again == first', again, first), ('again == fresh', again, fresh)):
-            for x, y, what in ((va, vb, 'value'), (ia.error_estimate, ib.error_estimate, 'error_estimate'), (ia.final_step, ib.final_step, 'final_step')):
+        first, again, fresh, inplace = p.result
+        pairs = [('again == first', again, first), ('again == fresh', again, fresh)]
+        if inplace is not None:
+            pairs.append(('same array object updated in place == fresh', inplace, fresh))
+        for label, (va, ia), (vb, ib) in pairs:
+            for x, y, what in ((va, vb, 'value'), (ia.error_estimate, ib.error_estimate, 'error_estimate'), (ia.final_step, ib.final_step, 'final_step'),
+                               (getattr(ia, 'f_value', 0), getattr(ib, 'f_value', 0), 'f_value')):
                 for u, w in zip(cm.flat_list(x), cm.flat_list(y)):
                     u, w = sn.as_symc(u), sn.as_symc(w)
                     job.prove('%s %s: %s' % (cls, label, what), z3.And(sn.lift(u.re) == sn.lift(w.re), sn.lift(u.im) == sn.lift(w.im)), p.conds(),
@@ -694,6 +705,10 @@ def replay(cex):
                 x1, x2 = np.array([0.5, -0.75]), np.array([1.25, 2.0])
                 with cm.quiet():
                     obj = mk(f); first = obj(x1); obj(x2); again = obj(x1); fresh = mk(f)(x1)
+                    obj2 = mk(f); xa = x2.copy(); obj2(xa); xa[:] = x1; inplace = obj2(xa)
+                if not (np.array_equal(inplace[0], fresh[0]) and np.array_equal(np.asarray(inplace[1].f_value), np.asarray(fresh[1].f_value))):
+                    return True, ('%s(method=%s): called with one array object that was updated in place between the calls: value %r, f_value %r; '
+                                  'a fresh object at the same point gives %r, %r' % (cls, method, inplace[0], inplace[1].f_value, fresh[0], fresh[1].f_value))
             for label, a, b in (('repeated call', again, first), ('reused vs fresh', again, fresh)):
                 if not (np.array_equal(a[0], b[0], equal_nan=True) and np.array_equal(a[1].error_estimate, b[1].error_estimate, equal_nan=True)):
                     return True, '%s(method=%s): %s differs: %r vs %r' % (cls, method, label, a[0], b[0])
